@@ -230,8 +230,6 @@ class Interpreter(BaseInterpreter[TContext, TEvent]):
 
         logger.info("🏁 Starting interpreter '%s'...", self.id)
         self.status = "running"
-        # 🌀 Launch the main event loop as a background task.
-        self._event_loop_task = asyncio.create_task(self._run_event_loop())
 
         try:
             # 🔔 Notify plugins that the interpreter is starting.
@@ -253,6 +251,19 @@ class Interpreter(BaseInterpreter[TContext, TEvent]):
             # unrelated event happened to nudge it. `start()` must return a
             # settled configuration in BOTH engines.
             await self._settle_transient_transitions()
+
+            # 🌀 Launch the main event loop as a background task - only now.
+            #
+            # 🏛️ Architecture decision: the loop task used to be created
+            # BEFORE the initial entry. Initial entry and the settle step run
+            # in the caller's task, and they can suspend (leaving a state
+            # awaits the cancellation of its timers/services). A consumer
+            # task that already existed then dequeued an event raised by an
+            # entry action and ran a second macrostep concurrently with the
+            # one in progress - exit actions ran twice and two sibling states
+            # ended up active. Events raised during start-up simply wait in
+            # the queue until the loop starts.
+            self._event_loop_task = asyncio.create_task(self._run_event_loop())
 
             logger.info(
                 "✅ Interpreter '%s' started successfully. Current states: %s",
